@@ -1,5 +1,6 @@
 import VirtioVerif.Model.Proto
 import VirtioVerif.Model.Layout
+import VirtioVerif.Model.Console
 /-!
 Native line-protocol driver over all models: one request line in, one reply line out.
 `case …` lines reset per-case state and are echoed as `case`.
@@ -8,6 +9,7 @@ open VirtioVerif
 
 structure World where
   dummy : Unit := ()
+  con : Console.PState := Console.PState.empty
 
 def World.fresh : World := {}
 
@@ -15,6 +17,7 @@ def step (w : World) (line : String) : World × String :=
   match line.trimAscii.toString.splitOn " " with
   | "case" :: _ => (World.fresh, "case")
   | "layout" :: op :: rest => (w, Layout.handle op (Proto.parseArgs rest))
+  | "con" :: op :: rest => let (c, o) := Console.handle w.con op (Proto.parseArgs rest); ({ w with con := c }, o)
   | _ => (w, "bad-op")
 
 partial def loop (h : IO.FS.Stream) (out : IO.FS.Stream) (w : World) : IO Unit := do
